@@ -219,6 +219,12 @@ func c16CLISession(kind string, cmds []string, n int, seed uint64, ops time.Dura
 }
 
 func c16CLISessionL(kind string, cmds []string, n int, seed uint64, ops time.Duration, login bool) c16Session {
+	return c16CLISessionX(kind, cmds, n, seed, ops, login, 0, 0)
+}
+
+// c16CLISessionX: gap is slept before every command (the session ages past its timeouts between
+// operations), sockT is the TimeoutSocket of the transport (0: harness default).
+func c16CLISessionX(kind string, cmds []string, n int, seed uint64, ops time.Duration, login bool, gap, sockT time.Duration) c16Session {
 	var s c16Session
 	dev := c16CLIDevice()
 	if login {
@@ -234,7 +240,7 @@ func c16CLISessionL(kind string, cmds []string, n int, seed uint64, ops time.Dur
 		dev.Start()
 		opts = append(opts, options.WithCustomTransport(dev))
 	} else {
-		topts, peerOf, err := c16TransportOpts(kind, "shell", []byte{255, 253, 1, 255, 251, 3}, seed)
+		topts, peerOf, err := c16TransportOptsV(kind, "shell", []byte{255, 253, 1, 255, 251, 3}, seed, c16Variant{sockT: sockT})
 		if err != nil {
 			s.open = "peer-setup: " + err.Error()
 			return s
@@ -254,6 +260,9 @@ func c16CLISessionL(kind string, cmds []string, n int, seed uint64, ops time.Dur
 		p, err := d.GetPrompt()
 		s.results = append(s.results, "prompt="+p+" err="+c16ErrClass(err))
 		for _, cmd := range cmds {
+			if gap > 0 && kind != "ideal" {
+				time.Sleep(gap)
+			}
 			r, err := d.SendCommand(cmd)
 			if err != nil {
 				s.results = append(s.results, "err="+c16ErrClass(err))
@@ -440,6 +449,15 @@ func c16SessionPair(what, kind string, n int, seed uint64) (ideal, real c16Sessi
 		cmds := c16Cmds(vlib.NewRng(seed))
 		ideal = c16CLISessionL("ideal", cmds, n, seed, c16SessionOps, true)
 		real = c16CLISessionL(kind, cmds, n, seed, c16SessionOps, true)
+	case "cli-aged":
+		// TimeoutOps and TimeoutSocket of one second, an operation after 1.2 s, 2.4 s, 3.6 s of session age
+		cmds := c16Cmds(vlib.NewRng(seed))[:3]
+		T := time.Second
+		if kind == "telnet" {
+			T = c16TelnetSocket
+		}
+		ideal = c16CLISessionX("ideal", cmds, n, seed, time.Second, false, 0, 0)
+		real = c16CLISessionX(kind, cmds, n, seed, time.Second, false, T+T/5, T)
 	case "cli-tilde":
 		// input lines that start with '~' (the OpenSSH client's escape character when it has a tty)
 		cmds := []string{"show version", "~~ banner line", "show clock"}
@@ -602,6 +620,11 @@ func c16Sessions(c *ctx) {
 	}
 	for _, kind := range append([]string{"system", "standard", "telnet"}, map[bool][]string{true: {"openssh"}}[haveSSH]...) {
 		jobs = append(jobs, job{"cli-tilde", kind, 8192, r.U64()})
+	}
+	for i := 0; i < c.n(1, 3); i++ {
+		for _, kind := range []string{"system", "standard", "telnet"} {
+			jobs = append(jobs, job{"cli-aged", kind, []int{8192, 100, 1500}[i%3], r.U64()})
+		}
 	}
 	for i := 0; i < rounds; i++ {
 		jobs = append(jobs, job{"cli-login", "telnet", []int{8192, 64, 1500, 333}[i%4], r.U64()})
